@@ -29,7 +29,8 @@ PARTIAL = []
 
 def harness_specs(tier):
     return [dict(name='h_c15', src='h_c15.cpp', flavour='fast'), dict(name='h_c15_san', src='h_c15.cpp', flavour='san-dbg'),
-            dict(name='h_c15_fd', src='h_c15_fd.cpp', flavour='fast'), dict(name='h_c15_fd_san', src='h_c15_fd.cpp', flavour='san-dbg')]
+            dict(name='h_c15_fd', src='h_c15_fd.cpp', flavour='fast'), dict(name='h_c15_fd_san', src='h_c15_fd.cpp', flavour='san-dbg'),
+            dict(name='h_c15_na', src='h_c15_na.cpp', flavour='fast'), dict(name='h_c15_na_san', src='h_c15_na.cpp', flavour='san-dbg')]
 
 
 def arr(s, base=0):
@@ -275,8 +276,49 @@ def both(req, oracle, tags, nontrivial=True, model=False, dom=True, fd=False):
                tags=list(tags) + [hs, 'expect-nothing' if oracle == 'nothing' else 'expect-value'])
 
 
+def gen_axis_kinds(tier):
+    """index::normalize_axis over the integer KIND of the axis argument (signed / unsigned scalar, lists of signed / unsigned
+    entries in vector / std::array / static_vector), and moveaxis / roll / expand_dims with unsigned axis lists: the unsigned
+    branches have a range test of their own (seeded change C15-c: `<` -> `<=` accepted axis == ndim for unsigned lists only)"""
+    def na(axes, nd):
+        if all(-nd <= a < nd for a in axes):
+            return 'ok ' + fmt([a % nd for a in axes])
+        return 'nothing'
+    hs = ('h_c15_na', 'h_c15_na_san')
+    for nd in (1, 2, 3, 4):
+        for a in range(-nd - 2, nd + 3):
+            for k in (('i', 'ii') if a < 0 else ('i', 'ii', 'u')):
+                o = ('ok %d' % (a % nd)) if -nd <= a < nd else 'nothing'
+                for h in hs:
+                    yield Case('normalize_axis kind=%s axis=%d ndim=%d' % (k, a, nd), h, oracle=o, model=False, tags=['normalize_axis', 'kind=' + k, 'axis==ndim' if a == nd else 'other'])
+        lists = [list(t) for L in (1, 2, 3) for t in itertools.product(range(-nd - 1, nd + 2), repeat=L)]
+        if tier == 'quick':
+            lists = [l for l in lists if len(l) < 3 or (sum(l) + nd) % 4 == 0]
+        for l in lists:
+            neg = any(x < 0 for x in l)
+            for t in (('i', 'l') if neg else ('i', 'l', 'u', 'u32')):
+                for c in ('vec', 'arr', 'sv'):
+                    h = hs[(len(l) + nd + len(c)) % 2]
+                    yield Case('normalize_axis kind=%s:%s axis=%s ndim=%d' % (t, c, fmt(l), nd), h, oracle=na(l, nd), model=False,
+                               tags=['normalize_axis', 'kind=%s:%s' % (t, c), 'axis==ndim' if nd in l else 'other'])
+    for s in ([2, 3], [2, 1, 3], [4]):
+        d = len(s)
+        for t in ('i', 'u', 'u32'):
+            for c in ('vec', 'arr'):
+                for p in range(0, d + 2):
+                    for q in range(0, d + 2):
+                        yield Case('moveaxis kind=%s:%s shape=%s src=%d dst=%d' % (t, c, fmt(s), p, q), hs[(p + q) % 2], oracle=ora(lambda: np.moveaxis(arr(s), p, q)),
+                                   model=False, tags=['moveaxis', 'axis-kind=' + t])
+                    yield Case('roll kind=%s:%s shape=%s shift=1 axis=%d' % (t, c, fmt(s), p), hs[p % 2], oracle=ora(lambda: np.roll(arr(s), [1], [p])),
+                               model=False, tags=['roll', 'axis-kind=' + t])
+                for ax in itertools.chain(([p] for p in range(0, d + 3)), ([p, q] for p in range(0, d + 3) for q in range(0, d + 3))):
+                    yield Case('expand_dims kind=%s:%s shape=%s axis=%s' % (t, c, fmt(s), fmt(ax)), hs[sum(ax) % 2], oracle=ora(lambda: np.expand_dims(arr(s), tuple(ax))),
+                               model=False, tags=['expand_dims', 'axis-kind=' + t])
+
+
 def gen(tier, rng):
     _san_budget.clear()
+    yield from gen_axis_kinds(tier)
     R, E = (3, 3) if tier == 'quick' else (3, 4)
     srcs = [s for s in shapes(R, E, min_rank=1)]
     small = [s for s in srcs if prod(s) <= 12] if tier == 'quick' else srcs
